@@ -38,7 +38,9 @@ class Recorder:
                                sigma=None if kw.get('sigma') is None else np.array(kw['sigma'], float),
                                p0=None if kw.get('p0') is None else np.array(kw['p0'], float),
                                bounds=kw.get('bounds'), method=kw.get('method')))
-        return self.real(f, xdata, ydata, **kw)
+        ret = self.real(f, xdata, ydata, **kw)
+        self.calls[-1]['popt'] = np.array(ret[0], float)      # what SciPy handed back for this call
+        return ret
 
 
 def gen(ctx):
@@ -235,6 +237,11 @@ def check_case(ctx, case):
             ctx.violation('not-locally-optimal', 're-optimising near the reported parameters %r lowers the objective '
                           'from %r to %r' % (cof, obj, best), case,
                           signature=dict(kind='not-locally-optimal', sum_model='+' in case['model'], method=case['method'],
+                                         # the reported coefficients are exactly what scipy.optimize.curve_fit
+                                         # returned for the (separately checked) documented inputs
+                                         equals_curve_fit_output=bool(
+                                             call.get('popt') is not None and len(call['popt']) <= len(cof) and
+                                             np.array_equal(np.array(cof[:len(call['popt'])]), call['popt'])),
                                          parameter_at_lower_bound=at_lower,
                                          fit_sigma='array' if isinstance(case['fit_sigma'], list) else str(case['fit_sigma'])))
 
